@@ -2454,7 +2454,6 @@ Record dgrow (D D' : disk) : Prop := mkDgrow {
   g_accts : forall k row, aget sa_dec (d_accts D) k = Some row -> aget sa_dec (d_accts D') k = Some row;
   g_scopes : forall s v, aget scope_eq_dec (d_scopes D) s = Some v -> aget scope_eq_dec (d_scopes D') s = Some v;
   g_addrs : d_addrs D' = d_addrs D;
-  g_next : forall k n, aget sab_dec (d_next D) k = Some n -> aget sab_dec (d_next D') k = Some n;
 }.
 
 Lemma obj_ok_grow D D' o : dgrow D D' -> obj_ok D o -> obj_ok D' o.
@@ -2469,11 +2468,9 @@ Qed.
 
 Lemma Inv0_dgrow seed lk D M D' :
   Inv0 seed lk (mkState D M) -> dgrow D D' -> disk_ok seed D' ->
-  (forall s a ai, aget sa_dec (m_accts M) (s, a) = Some ai ->
-     disk_next D' s a false = disk_next D s a false /\ disk_next D' s a true = disk_next D s a true) ->
   Inv0 seed lk (mkState D' M).
 Proof.
-  intros I G HD _. destruct I. simpl in *. constructor; unfinv; try assumption.
+  intros I G HD. destruct I. simpl in *. constructor; unfinv; try assumption.
   - intros s sch H. destruct (i_scopes0 s sch H) as (coin & Hc). exists coin. apply (g_scopes _ _ G). exact Hc.
   - intros s a ai H. destruct (i_accts0 s a ai H) as (row & R1 & R). exists row. split; [apply (g_accts _ _ G); exact R1|exact R].
   - intros oid o H. eapply obj_ok_grow; eauto.
@@ -2914,3 +2911,550 @@ Section ops4.
       splits; [eapply Good_grow; eauto|intros A; eapply Avail_grow; eauto|apply (ext_locked _ _ E1)|exact HD|exact Logic.I].
   Qed.
 End ops4.
+
+Lemma existsb_false_In {A} (f : A -> bool) l x : existsb f l = false -> In x l -> f x = false.
+Proof.
+  intros H Hx. destruct (f x) eqn:E; [|reflexivity].
+  assert (existsb f l = true) by (apply existsb_exists; eauto). congruence.
+Qed.
+
+Lemma NoDup_In_aget {V} (l : list (scope * V)) s v :
+  NoDup (map fst l) -> In (s, v) l -> aget scope_eq_dec l s = Some v.
+Proof.
+  induction l as [|[s0 v0] l IH]; simpl; [intros _ []|]. intros Hnd [H|H].
+  - inversion H. subst. destruct (scope_eq_dec s s); [reflexivity|contradiction].
+  - inversion Hnd as [|? ? Hn Hnd']. subst. destruct (scope_eq_dec s s0) as [->|].
+    + exfalso. apply Hn. apply in_map_iff. exists (s0, v). split; [reflexivity|exact H].
+    + apply IH; assumption.
+Qed.
+
+Section ops5.
+  Context (seed : N).
+
+  (** the invariants do not look at the lock flag, the passphrases, or the key cache keys' order *)
+  Lemma Inv0_set_locked lk v st : Inv0 seed lk st -> Inv0 seed lk (upd_mem (set_m_locked v) st).
+  Proof. intros I. destruct st as [D M]. unf. destruct I. constructor; unfinv; assumption. Qed.
+
+  Lemma Inv0_set_pass lk v w st :
+    Inv0 seed lk st -> Inv0 seed lk (upd_mem (set_m_pass v) (upd_disk (set_d_pass w) st)).
+  Proof. intros I. destruct st as [D M]. unf. destruct I. constructor; unfinv; assumption. Qed.
+
+  Lemma step_chpass b st old new :
+    Good seed st ->
+    let st' := fst (step b st (OChangePass old new)) in
+    Good seed st' /\ (Avail st -> Avail st') /\ m_locked (st_mem st') = m_locked (st_mem st).
+  Proof.
+    intros G. pose proof G as (I & NX & HCs). cbn [step].
+    destruct (negb (old =? m_pass (st_mem st))); simpl; [splits; auto|].
+    pose proof (Inv0_set_pass _ new new st I) as I'. destruct st as [D M]. unf.
+    splits; [exact (conj I' (conj NX HCs))|intros A; exact A|reflexivity].
+  Qed.
+
+  Lemma step_priv b st h :
+    Good seed st ->
+    let st' := fst (step b st (OPriv h)) in
+    Good seed st' /\ (Avail st -> Avail st') /\ m_locked (st_mem st') = m_locked (st_mem st) /\
+    st_disk st' = st_disk st /\
+    forall oid ma, nth_error (m_handles (st_mem st)) h = Some oid ->
+      nth_error (m_heap (st_mem st)) oid = Some (MKey ma) ->
+      snd (step b st (OPriv h)) =
+      if m_locked (st_mem st) then OutErr ELocked
+      else match ma_enc ma with
+           | None => OutErr EWatching
+           | Some _ => OutKey (Priv (skey_of_pub (ma_pub ma)))
+           end.
+  Proof.
+    intros G. pose proof G as (I & NX & HCs). cbn [step].
+    destruct (nth_error (m_handles (st_mem st)) h) as [oid|] eqn:Eh; simpl;
+      [|splits; auto; intros; discriminate].
+    destruct (priv_key_post seed _ st oid I) as (I1 & P1 & H1 & R1).
+    destruct (priv_key st oid) as [st1 p] eqn:Ep. simpl in *.
+    assert (G1 : Good seed st1) by (eapply Good_pres; eauto).
+    destruct p as [k|e]; simpl;
+      (splits; [exact G1|intros A; eapply Avail_pres; eauto|apply (p_locked _ _ P1)|apply (p_disk _ _ P1)|]);
+      intros oid' ma Ho Hm; inversion Ho; subst oid'; rewrite Hm in R1;
+      destruct (m_locked (st_mem st)); try discriminate; destruct (ma_enc ma); try discriminate; congruence.
+  Qed.
+
+  Lemma step_script b st h :
+    Good seed st ->
+    let st' := fst (step b st (OScript h)) in
+    Good seed st' /\ (Avail st -> Avail st') /\ m_locked (st_mem st') = m_locked (st_mem st) /\
+    st_disk st' = st_disk st /\
+    forall oid sa, nth_error (m_handles (st_mem st)) h = Some oid ->
+      nth_error (m_heap (st_mem st)) oid = Some (MScript sa) ->
+      snd (step b st (OScript h)) = if m_locked (st_mem st) then OutErr ELocked else OutScript (sa_script sa).
+  Proof.
+    intros G. pose proof G as (I & NX & HCs). cbn [step].
+    destruct (nth_error (m_handles (st_mem st)) h) as [oid|] eqn:Eh; simpl;
+      [|splits; auto; intros; discriminate].
+    destruct (script_of_post seed _ st oid I) as (I1 & P1 & H1 & R1).
+    destruct (script_of st oid) as [st1 p] eqn:Ep. simpl in *.
+    assert (G1 : Good seed st1) by (eapply Good_pres; eauto).
+    destruct p as [k|e]; simpl;
+      (splits; [exact G1|intros A; eapply Avail_pres; eauto|apply (p_locked _ _ P1)|apply (p_disk _ _ P1)|]);
+      intros oid' sa Ho Hm; inversion Ho; subst oid'; rewrite Hm in R1;
+      destruct (m_locked (st_mem st)); try discriminate; congruence.
+  Qed.
+
+  (** DeriveFromKeyPathCache *)
+  Lemma step_derivecache b st s p :
+    Good seed st ->
+    let st' := fst (step b st (ODeriveCache s p)) in
+    Good seed st' /\ (Avail st -> Avail st') /\ m_locked (st_mem st') = m_locked (st_mem st) /\
+    st_disk st' = st_disk st /\
+    forall k, snd (step b st (ODeriveCache s p)) = OutKey k ->
+      exists row, aget sa_dec (d_accts (st_disk st)) (s, dp_iacct p) = Some row /\
+                  k = Priv (path_skey (ar_pub row) (dp_branch p) (dp_index p)).
+  Proof.
+    intros G. pose proof G as (I & NX & HCs). cbn [step]. unfold with_scope.
+    destruct (aget scope_eq_dec (m_scopes (st_mem st)) s) as [sch|] eqn:Es; [|simpl; splits; auto; intros; discriminate].
+    destruct (aget sp_dec (m_pk (st_mem st)) (s, p)) as [k0|] eqn:Ek; simpl.
+    { splits; auto. intros k Hk. inversion Hk. subst. apply (i_pk _ _ _ I _ _ _ Ek). }
+    destruct (aget sa_dec (m_accts (st_mem st)) (s, dp_iacct p)) as [ai|] eqn:Ec; simpl;
+      [|splits; auto; intros; discriminate].
+    pose proof (i_accts _ _ _ I _ _ _ Ec) as Hai.
+    pose proof (ai_static_wf _ _ _ _ _ _ (i_disk _ _ _ I) Hai) as Hwf.
+    destruct (derive_key ai (dp_branch p) (dp_index p) (negb (locked st))) as [[k|k]| |] eqn:Hd; simpl;
+      try (splits; auto; intros; discriminate).
+    destruct (derive_key_spec _ _ _ _ _ Hwf Hd) as (K1 & K2 & K3). simpl in K2.
+    destruct Hai as (row & R1 & _ & R3 & _).
+    assert (Hk : exists row, aget sa_dec (d_accts (st_disk st)) (s, dp_iacct p) = Some row /\
+                             Priv k = Priv (path_skey (ar_pub row) (dp_branch p) (dp_index p))).
+    { exists row. split; [exact R1|]. rewrite K2, R3. reflexivity. }
+    assert (I' : Inv0 seed (m_locked (st_mem st))
+                      (upd_mem (fun m => set_m_pk (aset sp_dec (m_pk m) (s, p) (Priv k)) m) st)).
+    { destruct st as [D M]. unf. destruct I. constructor; unfinv; try assumption.
+      intros s' p' k' H. rewrite aget_aset in H. destruct (sp_dec (s', p') (s, p)) as [E|E]; [|eauto].
+      inversion E. inversion H. subst. exact Hk. }
+    destruct st as [D M]. unf. splits; [exact (conj I' (conj NX HCs))|intros A; exact A|reflexivity|reflexivity|].
+    intros k' Hk'. inversion Hk'. subst. exact Hk.
+  Qed.
+End ops5.
+
+Section ops6.
+  Context (seed : N).
+
+  (** Manager.lock() in any lock state *)
+  Lemma lock_all_good st :
+    Good seed st -> Good seed (lock_all st) /\ (Avail st -> Avail (lock_all st)) /\
+    m_locked (st_mem (lock_all st)) = true /\ st_disk (lock_all st) = st_disk st.
+  Proof.
+    intros (I & NX & HCs).
+    destruct (lock_all_post seed _ st I) as (I1 & L1 & D1 & Q1 & A1 & (HL & HR) & H1).
+    splits; try assumption.
+    - unfold Good. rewrite L1. splits; [exact I1| |].
+      + intros s a ai H. rewrite A1, aget_amap in H.
+        destruct (aget sa_dec (m_accts (st_mem st)) (s, a)) as [ai0|] eqn:E; [|discriminate]. inversion H. subst ai.
+        rewrite D1. simpl. exact (NX s a ai0 E).
+      + intros oid ma Hn Hi.
+        destruct (nth_error (m_heap (st_mem st)) oid) as [o|] eqn:Eo;
+          [|apply nth_error_None in Eo; apply nth_error_Some_lt in Hn; lia].
+        destruct (HR oid o Eo) as (o1 & R1 & R2 & _). rewrite Hn in R1. inversion R1. subst o1.
+        destruct o as [mb|]; simpl in R2; [|contradiction]. destruct R2 as (S1 & S2 & _ & _ & S5 & _).
+        rewrite A1, aget_amap, <- S1, <- S2.
+        specialize (HCs oid mb Eo). rewrite S5 in HCs. specialize (HCs Hi).
+        destruct (aget sa_dec (m_accts (st_mem st)) _); [reflexivity|discriminate].
+    - intros A oid ma row Hn Hi Hr Hp.
+      destruct (nth_error (m_heap (st_mem st)) oid) as [o|] eqn:Eo;
+        [|apply nth_error_None in Eo; apply nth_error_Some_lt in Hn; lia].
+      destruct (HR oid o Eo) as (o1 & R1 & R2 & R3 & _). rewrite Hn in R1. inversion R1. subst o1.
+      destruct o as [mb|]; simpl in R2, R3; [|contradiction]. destruct R2 as (S1 & S2 & _ & _ & S5 & _).
+      rewrite D1, <- S1, <- S2 in Hr. rewrite L1, Q1, <- S1, <- S2, <- R3.
+      destruct (A oid mb row Eo) as [X|(X & Y)]; try congruence; [left; exact X|right; split; [reflexivity|exact Y]].
+  Qed.
+
+  Lemma step_lock b st :
+    Good seed st ->
+    let st' := fst (step b st OLock) in
+    Good seed st' /\ (Avail st -> Avail st') /\ st_disk st' = st_disk st.
+  Proof.
+    intros G. cbn [step]. destruct (locked st); simpl; [splits; auto|].
+    destruct (lock_all_good st G) as (G1 & A1 & _ & D1). splits; assumption.
+  Qed.
+
+  Lemma step_unlock b st pass :
+    Good seed st ->
+    let st' := fst (step b st (OUnlock pass)) in
+    Good seed st' /\ (Avail st -> Avail st') /\ st_disk st' = st_disk st.
+  Proof.
+    intros G. pose proof G as (I & NX & HCs). cbn [step]. unfold unlock.
+    destruct (negb (m_locked (st_mem st))) eqn:El.
+    { destruct (pass =? m_pass (st_mem st)); simpl; [splits; auto|].
+      destruct (lock_all_good st G) as (G1 & A1 & _ & D1). splits; assumption. }
+    apply negb_false_iff in El.
+    destruct (negb (pass =? m_pass (st_mem st))); simpl.
+    { destruct (lock_all_good st G) as (G1 & A1 & _ & D1). splits; assumption. }
+    destruct (existsb (fun kv => negb (is_some (ai_enc (snd kv)))) (m_accts (st_mem st))) eqn:Ex; simpl.
+    { destruct (lock_all_good st G) as (G1 & A1 & _ & D1). splits; assumption. }
+    (* the successful path *)
+    set (st1 := upd_mem (fun m => set_m_accts (amap fill_priv (m_accts m)) m) st).
+    assert (Hst1 : st1 = mkState (st_disk st)
+                     (mkMem (m_locked (st_mem st)) (m_pass (st_mem st)) (m_scopes (st_mem st))
+                            (amap fill_priv (m_accts (st_mem st))) (m_addrs (st_mem st)) (m_queue (st_mem st))
+                            (m_pk (st_mem st)) (m_heap (st_mem st)) (m_handles (st_mem st)))) by reflexivity.
+    assert (I1 : Inv0 seed false st1).
+    { rewrite Hst1. apply (Inv0_reheap seed _ false _ st _ _ I (heap_rel_refl _)).
+      intros s a ai H. simpl in H. rewrite aget_amap in H.
+      destruct (aget sa_dec (m_accts (st_mem st)) (s, a)) as [ai0|] eqn:E; [|discriminate]. inversion H. subst ai.
+      destruct (i_accts _ _ _ I _ _ _ E) as (row & R1 & R2 & R3 & R4 & R5 & R6 & R7).
+      exists row. simpl. splits; assumption. }
+    assert (HC1 : HC st1).
+    { intros oid ma Hn Hi. rewrite Hst1 in *. simpl in *. rewrite aget_amap.
+      specialize (HCs oid ma Hn Hi). destruct (aget sa_dec (m_accts (st_mem st)) _); [reflexivity|discriminate]. }
+    assert (HF1 : filled st1).
+    { intros k ai H. rewrite Hst1 in H. simpl in H. rewrite aget_amap in H.
+      destruct (aget sa_dec (m_accts (st_mem st)) k) as [ai0|] eqn:E; [|discriminate]. inversion H. subst ai. simpl.
+      pose proof (existsb_false_In _ _ (k, ai0) Ex (aget_In _ _ _ _ E)) as Hx. simpl in Hx.
+      destruct (ai_enc ai0); [discriminate|discriminate]. }
+    destruct (derive_queue_post seed (m_queue (st_mem st)) st1 I1 HC1 HF1 eq_refl)
+      as (st2 & D2 & I2 & Q2 & K2 & A2 & L2 & H2 & (FL & FR)).
+    fold st1. rewrite D2. simpl.
+    pose proof (Inv0_set_locked seed false false st2 I2) as I3.
+    set (st3 := upd_mem (set_m_locked false) st2) in *.
+    assert (Ha3 : m_accts (st_mem st3) = amap fill_priv (m_accts (st_mem st))) by (unfold st3; unf; rewrite A2; reflexivity).
+    assert (Hd3 : st_disk st3 = st_disk st) by (unfold st3; unf; rewrite K2; reflexivity).
+    assert (Hh3 : m_heap (st_mem st3) = m_heap (st_mem st2)) by (unfold st3; unf; reflexivity).
+    assert (Hshape : forall oid mc, nth_error (m_heap (st_mem st3)) oid = Some (MKey mc) ->
+              exists mb, nth_error (m_heap (st_mem st)) oid = Some (MKey mb) /\ same_shape (MKey mb) (MKey mc) /\
+                         (ma_enc mb <> None -> ma_enc mc <> None) /\
+                         (forall s br idx, In (s, oid, br, idx) (m_queue (st_mem st)) -> ma_enc mc <> None)).
+    { intros oid mc Hn. rewrite Hh3 in Hn.
+      destruct (nth_error (m_heap (st_mem st)) oid) as [o|] eqn:Eo.
+      - destruct (FR oid o) as (o' & F1 & F2 & F3); [rewrite Hst1; exact Eo|].
+        rewrite Hn in F1. inversion F1. subst o'. destruct o as [mb|]; [|contradiction].
+        exists mb. tauto.
+      - apply nth_error_None in Eo. apply nth_error_Some_lt in Hn. rewrite FL, Hst1 in Hn. simpl in Hn. lia. }
+    splits; [|intros A|exact Hd3].
+    - unfold Good. assert (Hl3 : m_locked (st_mem st3) = false) by (unfold st3; unf; reflexivity). rewrite Hl3.
+      splits; [exact I3| |].
+      + intros s a ai H. rewrite Ha3, aget_amap in H.
+        destruct (aget sa_dec (m_accts (st_mem st)) (s, a)) as [ai0|] eqn:E; [|discriminate]. inversion H. subst ai.
+        rewrite Hd3. simpl. exact (NX s a ai0 E).
+      + intros oid mc Hn Hi. destruct (Hshape oid mc Hn) as (mb & B1 & (S1 & S2 & _ & _ & S5 & _) & _).
+        rewrite Ha3, aget_amap, <- S1, <- S2. specialize (HCs oid mb B1). rewrite S5 in HCs. specialize (HCs Hi).
+        destruct (aget sa_dec (m_accts (st_mem st)) _); [reflexivity|discriminate].
+    - intros oid mc row Hn Hi Hr Hp. left.
+      destruct (Hshape oid mc Hn) as (mb & B1 & (S1 & S2 & _ & _ & S5 & _) & E1 & E2).
+      rewrite Hd3, <- S1, <- S2 in Hr.
+      destruct (A oid mb row B1) as [X|(X & Y)]; try congruence; [apply E1; exact X|eapply E2; exact Y].
+  Qed.
+
+  Lemma step_open b st :
+    Good seed st ->
+    let st' := fst (step b st OOpen) in
+    Good seed st' /\ Avail st' /\ st_disk st' = st_disk st.
+  Proof.
+    intros (I & NX & HCs). cbn [step]. simpl. splits; [|intros oid ma row Hn; destruct oid; discriminate|reflexivity].
+    unfold Good. simpl. splits.
+    - destruct (i_disk _ _ _ I) as (D1 & D2 & D3 & D4 & D5 & D6 & D7).
+      constructor; unfinv; try (intros; discriminate).
+      + exact (i_disk _ _ _ I).
+      + intros s sch H. apply in_map_iff in H. destruct H as ([s' [sch' coin]] & E & Hin). simpl in E. inversion E. subst.
+        exists coin. apply NoDup_In_aget; assumption.
+      + intros oid o H. destruct oid; discriminate.
+      + intros s oid b0 i [].
+      + intros h [].
+    - intros s a ai H. discriminate.
+    - intros oid ma H. destruct oid; discriminate.
+  Qed.
+End ops6.
+
+Lemma aget_None_notin {K V} (dec : forall a b : K, {a = b} + {a <> b}) (l : list (K * V)) k :
+  aget dec l k = None -> ~ In k (map fst l).
+Proof.
+  induction l as [|[k0 v0] l IH]; simpl; [tauto|]. destruct (dec k k0) as [->|Hn]; [discriminate|].
+  intros H [E|E]; [congruence|exact (IH H E)].
+Qed.
+
+Lemma NoDup_snoc {A} (l : list A) x : NoDup l -> ~ In x l -> NoDup (l ++ [x]).
+Proof.
+  induction 1 as [|y l Hy Hl IH]; simpl; intros Hx; [repeat constructor; tauto|].
+  constructor; [|apply IH; tauto]. intros Hin. apply in_app_or in Hin. destruct Hin as [H|[H|[]]]; [tauto|subst; tauto].
+Qed.
+
+Lemma aget_app_old {K V} (dec : forall a b : K, {a = b} + {a <> b}) (l : list (K * V)) k v k' x :
+  aget dec l k' = Some x -> aget dec (l ++ [(k, v)]) k' = Some x.
+Proof. intros H. rewrite aget_app, H. reflexivity. Qed.
+
+Lemma addr_row_ok_grow D D' s k r : dgrow D D' -> addr_row_ok D s k r -> addr_row_ok D' s k r.
+Proof.
+  intros G. destruct r; simpl.
+  - intros (row & sch & coin & H1 & H2 & H3). exists row, sch, coin.
+    split; [apply (g_accts _ _ G); exact H1|split; [apply (g_scopes _ _ G); exact H2|exact H3]].
+  - intros (n & sch & coin & H1 & H2 & H3 & H4). exists n, sch, coin.
+    split; [exact H1|split; [exact H2|split; [apply (g_scopes _ _ G); exact H3|exact H4]]].
+  - tauto.
+Qed.
+
+Lemma Avail_dgrow seed lk D M D' :
+  Inv0 seed lk (mkState D M) -> dgrow D D' -> Avail (mkState D M) -> Avail (mkState D' M).
+Proof.
+  intros I G A oid ma row Hn Hi Hr Hp. simpl in *.
+  destruct (i_heap _ _ _ I _ _ Hn) as (_ & Hc). simpl in Hc. rewrite Hi in Hc.
+  destruct Hc as (row0 & sch & coin & H1 & _).
+  pose proof (g_accts _ _ G _ _ H1) as H1'. rewrite Hr in H1'. inversion H1'. subst row0.
+  exact (A oid ma row Hn Hi H1 Hp).
+Qed.
+
+Section ops7.
+  Context (seed : N).
+
+  Lemma step_newscope b st s sch :
+    Good seed st ->
+    let st' := fst (step b st (ONewScope s sch)) in
+    Good seed st' /\ (Avail st -> Avail st') /\ m_locked (st_mem st') = m_locked (st_mem st) /\
+    (forall k row, aget sa_dec (d_accts (st_disk st)) k = Some row -> aget sa_dec (d_accts (st_disk st')) k = Some row) /\
+    (forall k, disk_next (st_disk st') (fst (fst k)) (snd (fst k)) (snd k) =
+               disk_next (st_disk st) (fst (fst k)) (snd (fst k)) (snd k)).
+  Proof.
+    intros G. pose proof G as (I & NX & HCs). cbn [step].
+    destruct (locked st); simpl; [splits; auto|].
+    destruct (aget scope_eq_dec (d_scopes (st_disk st)) s) as [v|] eqn:Es; simpl; [splits; auto|].
+    destruct st as [D M]. simpl in *.
+    pose proof (i_disk _ _ _ I) as (D1 & D2 & D3 & D4 & D5 & D6 & D7). simpl in D1, D2, D3, D4, D5, D6, D7.
+    set (coin := child (child (d_master D) (fst s) true) (snd s) true).
+    set (acct := child coin 0 true).
+    set (row := mkRow ADefault acct (Some acct) None 0 0).
+    set (D' := create_scope false D s sch).
+    assert (Hfresh : aget sa_dec (d_accts D) (s, 0) = None).
+    { destruct (aget sa_dec (d_accts D) (s, 0)) as [r|] eqn:E; [|reflexivity].
+      destruct (D3 s 0 r E) as (_ & X & _). rewrite Es in X. discriminate. }
+    assert (Ga : forall k r, aget sa_dec (d_accts D) k = Some r -> aget sa_dec (d_accts D') k = Some r).
+    { intros k r H. unfold D', create_scope. unf. rewrite aget_aset. destruct (sa_dec k (s, 0)) as [->|]; [congruence|exact H]. }
+    assert (Gs : forall s' v, aget scope_eq_dec (d_scopes D) s' = Some v -> aget scope_eq_dec (d_scopes D') s' = Some v).
+    { intros s' v H. unfold D', create_scope. unf. apply aget_app_old. exact H. }
+    assert (Gr : dgrow D D') by (constructor; [exact Ga|exact Gs|reflexivity]).
+    assert (HD' : disk_ok seed D').
+    { unfold disk_ok. splits.
+      - exact D1.
+      - intros s' sch' coin' H. unfold D', create_scope in H. unf. rewrite aget_app in H.
+        destruct (aget scope_eq_dec (d_scopes D) s') as [x|] eqn:E; [inversion H; subst; eauto|].
+        destruct (scope_eq_dec s' s) as [->|]; [|discriminate]. inversion H. subst. unfold coin_key. rewrite D1. reflexivity.
+      - intros s' a' r H. unfold D', create_scope in H |- *. unf. rewrite aget_aset in H.
+        destruct (sa_dec (s', a') (s, 0)) as [E|E].
+        + inversion E. inversion H. subst. splits.
+          * unfold row_ok. simpl. splits; try reflexivity. unfold acct_key, coin_key. rewrite D1. reflexivity.
+          * rewrite aget_app, Es. destruct (scope_eq_dec s s); [reflexivity|contradiction].
+          * destruct (aget scope_eq_dec (d_last D) s); [lia|reflexivity].
+        + destruct (D3 s' a' r H) as (X1 & X2 & X3). splits; try assumption.
+          destruct (aget scope_eq_dec (d_scopes D) s') as [x|] eqn:E'; [|discriminate].
+          rewrite (aget_app_old _ _ _ _ _ _ E'). reflexivity.
+      - intros s' k r H. eapply addr_row_ok_grow; [exact Gr|]. apply D4. exact H.
+      - exact D5.
+      - unfold D', create_scope. unf. rewrite map_app. simpl. apply NoDup_snoc; [exact D6|].
+        exact (aget_None_notin _ _ _ Es).
+      - intros s' l H. unfold D', create_scope in H |- *. unf. specialize (D7 s' l H).
+        destruct (aget scope_eq_dec (d_scopes D) s') as [x|] eqn:E'; [|discriminate].
+        rewrite (aget_app_old _ _ _ _ _ _ E'). reflexivity. }
+    pose proof (Inv0_dgrow seed _ D M D' I Gr HD') as I1.
+    assert (I2 : Inv0 seed (m_locked M) (upd_mem (fun m => set_m_scopes (m_scopes m ++ [(s, sch)]) m) (mkState D' M))).
+    { unf. destruct I1. constructor; unfinv; try assumption.
+      - intros s' sch' H. apply in_app_or in H. destruct H as [H|[H|[]]]; [eauto|].
+        inversion H. subst. exists coin. unfold D', create_scope. unf. rewrite aget_app, Es.
+        destruct (scope_eq_dec s' s'); [reflexivity|contradiction].
+      - intros s' oid b0 i H. destruct (i_queue0 s' oid b0 i H) as (ma & Q1 & Q2 & Q3 & Q4 & Q5 & Q6).
+        exists ma. splits; try assumption. destruct (aget scope_eq_dec (m_scopes M) s') as [x|] eqn:E'; [|discriminate].
+        rewrite (aget_app_old _ _ _ _ _ _ E'). reflexivity. }
+    unf. splits.
+    - unfold Good. simpl. splits; [exact I2| |exact HCs].
+      intros s' a' ai H. simpl in *. exact (NX s' a' ai H).
+    - intros A. exact (Avail_dgrow seed _ D M D' I Gr A).
+    - reflexivity.
+    - exact Ga.
+    - intros k. reflexivity.
+  Qed.
+End ops7.
+
+Section ops8.
+  Context (seed : N).
+
+  Lemma last_ok_spec d s : last_ok d s = true ->
+    exists l, aget scope_eq_dec (d_last d) s = Some l /\ l + 1 < 2147483647 /\
+              (last_account d s + 1) mod 4294967296 = l + 1.
+  Proof.
+    unfold last_ok, last_account. destruct (aget scope_eq_dec (d_last d) s) as [l|]; [|discriminate].
+    intros H. apply N.ltb_lt in H. exists l. splits; [reflexivity|exact H|]. apply N.mod_small. lia.
+  Qed.
+
+  Lemma new_account_row_post st s name rowf :
+    Good seed st -> last_ok (st_disk st) s = true ->
+    (forall l r, aget scope_eq_dec (d_last (st_disk st)) s = Some l -> rowf (l + 1) = Some r -> row_ok seed s (l + 1) r) ->
+    let st' := fst (new_account_row st s name rowf) in
+    Good seed st' /\ (Avail st -> Avail st') /\ st_mem st' = st_mem st /\
+    (forall k row, aget sa_dec (d_accts (st_disk st)) k = Some row -> aget sa_dec (d_accts (st_disk st')) k = Some row) /\
+    (forall s' a' i' row, aget sa_dec (d_accts (st_disk st)) (s', a') = Some row ->
+       disk_next (st_disk st') s' a' i' = disk_next (st_disk st) s' a' i') /\
+    (forall a, snd (new_account_row st s name rowf) = OutAcct a ->
+       aget sa_dec (d_accts (st_disk st)) (s, a) = None /\ rowf a = aget sa_dec (d_accts (st_disk st')) (s, a) /\
+       disk_next (st_disk st') s a false = 0 /\ disk_next (st_disk st') s a true = 0).
+  Proof.
+    intros G Hlast Hrow. pose proof G as (I & NX & HCs).
+    destruct (last_ok_spec _ _ Hlast) as (l & L1 & L2 & L3).
+    unfold new_account_row. rewrite L3.
+    destruct (name_taken (st_disk st) s name); simpl; [splits; auto; intros; discriminate|].
+    destruct (rowf (l + 1)) as [r|] eqn:Er; simpl; [|splits; auto; intros; discriminate].
+    destruct st as [D M]. simpl in *.
+    pose proof (i_disk _ _ _ I) as (D1 & D2 & D3 & D4 & D5 & D6 & D7). simpl in D1, D2, D3, D4, D5, D6, D7.
+    assert (Hfresh : aget sa_dec (d_accts D) (s, l + 1) = None).
+    { destruct (aget sa_dec (d_accts D) (s, l + 1)) as [r0|] eqn:E; [|reflexivity].
+      destruct (D3 s (l + 1) r0 E) as (_ & _ & X). rewrite L1 in X. lia. }
+    set (D' := set_d_last (aset scope_eq_dec (d_last D) s (l + 1))
+                 (set_d_next (aset sab_dec (aset sab_dec (d_next D) (s, l + 1, false) 0) (s, l + 1, true) 0)
+                    (set_d_accts (aset sa_dec (d_accts D) (s, l + 1) r) D))).
+    assert (Ga : forall k r0, aget sa_dec (d_accts D) k = Some r0 -> aget sa_dec (d_accts D') k = Some r0).
+    { intros k r0 H. unfold D'. unf. rewrite aget_aset. destruct (sa_dec k (s, l + 1)) as [->|]; [congruence|exact H]. }
+    assert (Gr : dgrow D D') by (constructor; [exact Ga|intros; assumption|reflexivity]).
+    assert (Hnext : forall s' a' i' row, aget sa_dec (d_accts D) (s', a') = Some row ->
+                      disk_next D' s' a' i' = disk_next D s' a' i').
+    { intros s' a' i' row H. unfold disk_next, D'. unf.
+      assert (Hne : (s', a') <> (s, l + 1)) by (intros E; inversion E; subst; congruence).
+      rewrite !aget_aset_neq; [reflexivity|intros E; inversion E; subst; tauto|intros E; inversion E; subst; tauto]. }
+    assert (HD' : disk_ok seed D').
+    { unfold disk_ok. splits; try assumption.
+      - intros s' a' r0 H. unfold D' in H |- *. unf. rewrite aget_aset in H.
+        destruct (sa_dec (s', a') (s, l + 1)) as [E|E].
+        + inversion E. inversion H. subst. splits.
+          * apply (Hrow l r0 L1 Er).
+          * apply (D7 s l L1).
+          * rewrite aget_aset_eq. lia.
+        + destruct (D3 s' a' r0 H) as (X1 & X2 & X3). splits; try assumption.
+          rewrite aget_aset. destruct (scope_eq_dec s' s) as [->|]; [|exact X3]. rewrite L1 in X3. lia.
+      - intros s' k r0 H. eapply addr_row_ok_grow; [exact Gr|]. apply D4. exact H.
+      - intros k n H. unfold D' in H. unf. rewrite !aget_aset in H.
+        destruct (sab_dec k (s, l + 1, true)); [inversion H; unfold hardened_start; lia|].
+        destruct (sab_dec k (s, l + 1, false)); [inversion H; unfold hardened_start; lia|]. eauto.
+      - intros s' l' H. unfold D' in H |- *. unf. rewrite aget_aset in H.
+        destruct (scope_eq_dec s' s) as [->|]; [apply (D7 s l L1)|eauto]. }
+    pose proof (Inv0_dgrow seed _ D M D' I Gr HD') as I1.
+    splits.
+    - unfold Good. simpl. splits; [exact I1| |exact HCs].
+      intros s' a' ai H. destruct (NX s' a' ai H) as (X1 & X2).
+      destruct (i_accts _ _ _ I _ _ _ H) as (row & R1 & _).
+      split; [rewrite X1|rewrite X2]; symmetry; apply (Hnext _ _ _ row R1).
+    - intros A. exact (Avail_dgrow seed _ D M D' I Gr A).
+    - reflexivity.
+    - exact Ga.
+    - exact Hnext.
+    - intros a Ha. inversion Ha. subst a. splits; [exact Hfresh| | |].
+      + simpl. unf. rewrite aget_aset_eq. exact Er.
+      + unfold disk_next. simpl. unf. rewrite aget_aset_neq, aget_aset_eq; [reflexivity|intros E; inversion E].
+      + unfold disk_next. simpl. unf. rewrite aget_aset_eq. reflexivity.
+  Qed.
+
+  Lemma step_newaccount b st s name :
+    Good seed st -> last_ok (st_disk st) s = true ->
+    let st' := fst (step b st (ONewAccount s name)) in
+    Good seed st' /\ (Avail st -> Avail st') /\ st_mem st' = st_mem st /\
+    (forall k row, aget sa_dec (d_accts (st_disk st)) k = Some row -> aget sa_dec (d_accts (st_disk st')) k = Some row) /\
+    (forall s' a' i' row, aget sa_dec (d_accts (st_disk st)) (s', a') = Some row ->
+       disk_next (st_disk st') s' a' i' = disk_next (st_disk st) s' a' i').
+  Proof.
+    intros G Hl. pose proof G as (I & NX & HCs). cbn [step].
+    destruct (locked st); simpl; [splits; auto|]. unfold with_scope.
+    destruct (aget scope_eq_dec (m_scopes (st_mem st)) s) as [sch|]; [|simpl; splits; auto].
+    destruct (aget scope_eq_dec (d_scopes (st_disk st)) s) as [[sch' coin]|] eqn:Es; [|simpl; splits; auto].
+    match goal with |- context [new_account_row st s name ?f] =>
+      destruct (new_account_row_post st s name f G Hl) as (G1 & A1 & M1 & P1 & X1 & _) end; [|splits; assumption].
+    intros l r L Hr. pose proof (i_disk _ _ _ I) as (D1 & D2 & _).
+    rewrite (D2 s sch' coin Es) in Hr. simpl in Hr. inversion Hr. subst r. clear Hr.
+    unfold row_ok. simpl. splits; try reflexivity.
+    unfold raw_child, is_hardened, acct_key.
+    assert (Hh : hardened_start <=? l + 1 + hardened_start = true) by (apply N.leb_le; lia). rewrite Hh.
+    replace (l + 1 + hardened_start - hardened_start) with (l + 1) by lia. reflexivity.
+  Qed.
+
+  Lemma step_importxpub b st s name x cn fp osch :
+    Good seed st -> last_ok (st_disk st) s = true ->
+    let st' := fst (step b st (OImportXpub s name x cn fp osch)) in
+    Good seed st' /\ (Avail st -> Avail st') /\ st_mem st' = st_mem st /\
+    (forall k row, aget sa_dec (d_accts (st_disk st)) k = Some row -> aget sa_dec (d_accts (st_disk st')) k = Some row) /\
+    (forall s' a' i' row, aget sa_dec (d_accts (st_disk st)) (s', a') = Some row ->
+       disk_next (st_disk st') s' a' i' = disk_next (st_disk st) s' a' i').
+  Proof.
+    intros G Hl. cbn [step]. unfold with_scope.
+    destruct (aget scope_eq_dec (m_scopes (st_mem st)) s) as [sch|]; [|simpl; splits; auto].
+    match goal with |- context [new_account_row st s name ?f] =>
+      destruct (new_account_row_post st s name f G Hl) as (G1 & A1 & M1 & P1 & X1 & _) end; [|splits; assumption].
+    intros l r L Hr. inversion Hr. subst r. unfold row_ok. simpl. split; [eauto|reflexivity].
+  Qed.
+End ops8.
+
+Section ops9.
+  Context (seed : N).
+
+  (** storing an imported address row *)
+  Lemma put_addr_post lk st s k row :
+    Inv0 seed lk st -> addr_row_ok (st_disk st) s k row ->
+    let st' := upd_disk (fun d => set_d_addrs (aset sk_dec (d_addrs d) (s, k) row) d) st in
+    Inv0 seed lk st' /\ ext st st' /\ st_mem st' = st_mem st /\ d_next (st_disk st') = d_next (st_disk st).
+  Proof.
+    intros I Hrow. destruct st as [D M]. unf.
+    splits; [|constructor; simpl; try reflexivity; eauto using incl_refl|reflexivity|reflexivity].
+    destruct I as [ID IS IA IH IC IQ IP IHd]. simpl in *. constructor; simpl; try assumption.
+    destruct ID as (D1 & D2 & D3 & D4 & D5 & D6 & D7). unfold disk_ok. simpl. splits; try assumption.
+    intros s' k' r H. rewrite aget_aset in H. destruct (sk_dec (s', k') (s, k)) as [E|E].
+    - inversion E. inversion H. subst. eapply addr_row_ok_same; [| |exact Hrow]; reflexivity.
+    - eapply addr_row_ok_same; [| |apply D4; exact H]; reflexivity.
+  Qed.
+
+  Lemma step_import_common st s o row :
+    Good seed st -> m_locked (st_mem st) = false ->
+    addr_row_ok (st_disk st) s (obj_akey o) row -> obj_ok (st_disk st) o -> obj_scope o = s ->
+    (forall ma, o = MKey ma -> ma_imported ma = true) ->
+    let st1 := upd_disk (fun d => set_d_addrs (aset sk_dec (d_addrs d) (s, obj_akey o) row) d) st in
+    let st2 := fst (alloc st1 o) in
+    let oid := snd (alloc st1 o) in
+    let st4 := fst (report (cache_addr st2 s (obj_akey o) oid) oid) in
+    let r := snd (report (cache_addr st2 s (obj_akey o) oid) oid) in
+    Good seed st4 /\ (Avail st -> Avail st4) /\ m_locked (st_mem st4) = false /\
+    d_accts (st_disk st4) = d_accts (st_disk st) /\ d_next (st_disk st4) = d_next (st_disk st) /\
+    d_scopes (st_disk st4) = d_scopes (st_disk st) /\
+    rinfo_desc false o r /\ rinfo_ok (st_disk st4) false r.
+  Proof.
+    intros G Hl Hrow Hobj Hsc Himp. pose proof G as (I & NX & HCs). rewrite Hl in I.
+    intros st1 st2 oid st4 r.
+    destruct (put_addr_post false st s (obj_akey o) row I Hrow) as (I1 & E1 & M1 & X1). fold st1 in I1, E1, M1, X1.
+    assert (Hobj1 : obj_ok (st_disk st1) o).
+    { eapply obj_ok_same; [| |exact Hobj]; [apply (ext_accts _ _ E1)|apply (ext_dscopes _ _ E1)]. }
+    destruct (alloc_post seed false st1 o I1 Hobj1) as (I2 & E2 & A1 & A2 & A3 & A4 & A5 & A6).
+    fold st2 in I2, E2, A2, A3, A4, A5, A6. fold oid in A1.
+    assert (Hnth : nth_error (m_heap (st_mem st2)) oid = Some o).
+    { rewrite A2, A1, nth_error_snoc, Nat.ltb_irrefl, Nat.eqb_refl. reflexivity. }
+    assert (Hfield : acct_field_ok (st_disk st2) o).
+    { destruct o as [ma|]; simpl; [|exact Logic.I]. intros Hi. rewrite (Himp ma eq_refl) in Hi. discriminate. }
+    destruct (cache_addr_post seed false st2 s (obj_akey o) oid o I2 Hnth eq_refl Hsc Hfield) as (I3 & E3).
+    set (st3 := cache_addr st2 s (obj_akey o) oid) in *.
+    assert (E03 : ext st st3) by (eapply ext_trans; [exact E1|]; eapply ext_trans; eauto).
+    assert (Hnth3 : nth_error (m_heap (st_mem st3)) oid = Some o) by (unfold st3; unf; exact Hnth).
+    assert (N03 : new_fresh st st3).
+    { intros x Hx ma Hn Hi.
+      assert (Hlen : length (m_heap (st_mem st3)) = S (length (m_heap (st_mem st)))).
+      { assert (H32 : m_heap (st_mem st3) = m_heap (st_mem st2)) by reflexivity.
+        rewrite H32, A2, app_length, M1. simpl. lia. }
+      assert (Hoid : oid = length (m_heap (st_mem st))) by (rewrite <- M1; exact A1).
+      assert (x = oid) as -> by (clear - Hoid Hlen Hx; lia).
+      rewrite Hnth3 in Hn. inversion Hn. subst o. rewrite (Himp ma eq_refl) in Hi. discriminate. }
+    assert (X3 : NextOk st3).
+    { assert (Ha3 : m_accts (st_mem st3) = m_accts (st_mem st)).
+      { change (m_accts (st_mem st3)) with (m_accts (st_mem st2)). rewrite A5, M1. reflexivity. }
+      assert (Hn3 : d_next (st_disk st3) = d_next (st_disk st)).
+      { change (st_disk st3) with (st_disk st2). rewrite A3. exact X1. }
+      intros s' a' ai H. rewrite Ha3 in H. destruct (NX s' a' ai H) as (Y1 & Y2).
+      unfold disk_next in *. rewrite Hn3. split; assumption. }
+    rewrite <- Hl in I3.
+    assert (Hv : Forall (fun x => (x < length (m_heap (st_mem st3)))%nat) [oid]).
+    { constructor; [eapply nth_error_Some_lt; eauto|constructor]. }
+    destruct (grow_then_report seed st st3 [oid] G I3 E03 N03 X3 Hv) as (G4 & A4' & K4 & L4 & R4).
+    cbn [report_all] in G4, A4', K4, L4, R4.
+    fold st4 in G4, A4', K4, L4. fold r in R4.
+    destruct (report st3 oid) as [st4' r'] eqn:Er. simpl in *. subst st4 r. simpl in *.
+    inversion R4 as [|? ? ? ? (o' & O1 & O2 & O3) Hnil]. subst. rewrite Hnth3 in O1. inversion O1. subst o'.
+    rewrite Hl in *.
+    splits; try assumption.
+    - rewrite K4. rewrite (ext_accts _ _ E03). reflexivity.
+    - rewrite K4. change (st_disk st3) with (st_disk st2). rewrite A3. exact X1.
+    - rewrite K4. rewrite (ext_dscopes _ _ E03). reflexivity.
+    - rewrite K4. exact O3.
+  Qed.
+End ops9.
